@@ -92,15 +92,28 @@ def run(tier):
     n_exec = sum(1 for e in events if e["e"] == "reset")
     # no-op backend (64 entry points): same walks with the Contract's capacity set to 64,
     # plus the capacity history for 64
-    nlines = [l.replace("reset 1 2 ", "reset 1 64 ").replace("reset 2 2 ", "reset 2 64 ").replace("reset 2 1 ", "reset 2 64 ")
-              if l.startswith("reset") else l for l in lines[:n_model_lines if not thorough else len(lines)]]
-    nlines += capacity_history(64)
+    # (the number of entry points is measured on the backend, not assumed; the capacity history needs two
+    # more owners than entry points and the driver has 72 spare owners / 70 spare functions)
+    def native_lines(cap):
+        L = [l.replace("reset 1 2 ", "reset 1 %d " % cap).replace("reset 2 2 ", "reset 2 %d " % cap).replace("reset 2 1 ", "reset 2 %d " % cap)
+             if l.startswith("reset") else l for l in lines[:n_model_lines if not thorough else len(lines)]]
+        if cap <= 68:
+            L += capacity_history(cap)
+        else:
+            chk.assumptions.append("backend with %d entry points per sandbox: the table-full history is not run (driver pool: 68)" % cap)
+        return L
+    ncap = sx.capacity(drv["sbx_noop"])
+    chk.cov["entry_points_noop"] = ncap
+    nlines = native_lines(ncap)
     nevents, ntpath = sx.replay(drv["sbx_noop"], wd, "noop", nlines)
     bad += sx.validate(chk, "Trace_Sbx", ntpath, nevents, nlines, "noop")
     n_ev += len(nevents)
     n_exec += sum(1 for e in nevents if e["e"] == "reset")
     # dylib backend (64 entry points, real dlopen'ed guest library): the same script
     ddrv, dlibs = sx.dylib_driver()
+    dcap = sx.capacity(ddrv, dlibs)
+    chk.cov["entry_points_dylib"] = dcap
+    nlines = native_lines(dcap)
     devents, dtpath = sx.replay(ddrv, wd, "dylib", nlines, dlibs)
     bad += sx.validate(chk, "Trace_Sbx", dtpath, devents, nlines, "dylib")
     n_ev += len(devents)
